@@ -215,13 +215,12 @@ impl EcdhInfo {
         let (amount, blinding_factor) = match self {
             // ecdhDecode in rctOps.cpp else
             EcdhInfo::Standard { mask, amount } => {
-                let shared_sec1 = hash::Hash::new(shared_key.as_bytes()).to_bytes();
-                let shared_sec2 = hash::Hash::new(shared_sec1).to_bytes();
-                let mask_scalar = Scalar::from_bytes_mod_order(mask.key)
-                    - Scalar::from_bytes_mod_order(shared_sec1);
+                // Monero's ecdhDecode: sharedSec1 = Hs(k), sharedSec2 = Hs(sharedSec1), both reduced
+                let shared_sec1 = hash::Hash::hash_to_scalar(shared_key.as_bytes());
+                let shared_sec2 = hash::Hash::hash_to_scalar(shared_sec1.as_bytes());
+                let mask_scalar = Scalar::from_bytes_mod_order(mask.key) - shared_sec1.scalar;
 
-                let amount_scalar = Scalar::from_bytes_mod_order(amount.key)
-                    - Scalar::from_bytes_mod_order(shared_sec2);
+                let amount_scalar = Scalar::from_bytes_mod_order(amount.key) - shared_sec2.scalar;
                 // get first 64 bits (d2b in rctTypes.cpp)
                 let amount_significant_bytes = amount_scalar.to_bytes()[0..8]
                     .try_into()
